@@ -53,6 +53,47 @@ def tape_of(cg):
     return out
 
 
+def complex_replay_section(rep, ap, rng, tier):
+    """a graph recorded with real values replayed with COMPLEX plain arrays / complex UTPMs (complex-step differentiation, complex
+    points): the replay evaluates the program at the complex point, nothing is cast to float on the way"""
+    for it in range(25 if tier == 'quick' else 300):
+        prog = progs.gen_prog(rng, ap, nout=1, scalar_only=True)
+        N = prog['N']
+        text = progs.to_text(prog)
+        x_rec, rmeta = make_input(ap, rng, N, rng.choice(['ndarray', 'UTPM']))
+        try:
+            cg, fx, fys = record(ap, prog, x_rec)
+        except Exception as e:
+            rep.notes.append('recording raised %r' % e); continue
+        for kind in ('ndarray_complex', 'complex_step', 'UTPM_complex'):
+            if kind == 'ndarray_complex':
+                xn = progs.rand_point(rng, N) + 1j * progs.rand_point(rng, N)
+            elif kind == 'complex_step':
+                xn = progs.rand_point(rng, N) + 1e-20j * progs.rand_point(rng, N)
+            else:
+                D = rng.randint(1, 3); P = rng.randint(1, 2)
+                xn = ap.UTPM(progs.rand_utpm_data(rng, D, P, N) + 1j * progs.rand_utpm_data(rng, D, P, N))
+            rep.count('replayed_with', kind)
+            rep.case(('complex-replay', text, kind, repr(as_data(xn).tolist())), True, sample=dict(check='complex replay', kind=kind, program=text[:200]))
+            try:
+                want = progs.run(prog, xn, ap)
+            except Exception as e:
+                rep.notes.append('direct complex evaluation raised %r' % e); continue
+            try:
+                got = cg.function([xn])
+            except Exception as e:
+                rep.violation('replay:complex:exception', 'replay with %s raises %r' % (kind, e), dict(kind='replay', prog=prog, x_new=repr(as_data(xn).tolist()))); break
+            ok = len(got) == len(want)
+            for g, w in zip(got, want):
+                a, b = numpy.asarray(as_data(g)), numpy.asarray(as_data(w))
+                ok = ok and a.shape == b.shape and bool(numpy.all(numpy.abs(a - b) <= 1e-12 * (1 + numpy.abs(b)))) and \
+                    (kind != 'complex_step' or bool(numpy.all(numpy.abs(a.imag - b.imag) <= 1e-12 * (1e-20 + numpy.abs(b.imag)))))
+            if not ok:
+                rep.violation('replay:value:complex', 'replay with %s differs from running the program directly at the complex point (imaginary parts lost?)' % kind,
+                              dict(kind='replay', prog=prog, x_new=repr(as_data(xn).tolist()), got=repr([as_data(g).tolist() for g in got]), want=repr([as_data(w).tolist() for w in want])))
+                break
+
+
 def multi_input_section(rep, ap, rng, tier):
     """graphs with several independent variables, wrapped eagerly (all first) or lazily (operations on the first input are recorded
     before the second input is wrapped; a buffer is allocated in between): replay at other points / kinds / D, P against the program
@@ -205,6 +246,7 @@ def main(tier, seed):
                                    got=[as_data(g).tolist() for g in got], want=[as_data(w).tolist() for w in want]))
                 break
     multi_input_section(rep, ap, rng, tier)
+    complex_replay_section(rep, ap, rng, tier)
     verdicts, logs = lib.eval_bool_cases(PID, tm.IMPORTS, tm.DEFS, terms, per_file=40)
     bad = 0
     for m, v, t in zip(metas, verdicts, terms):
